@@ -82,3 +82,45 @@ def coverage(v, traces, rule_extra=""):
     v.cov["rule"] = ("scenarios = environment-action scripts (TLC-generated from Conn.tla, hand-written corner cases, seeded random), each run "
                      "on a real session under synctest; distinct by (side, write mode, step list); non-trivial = contains a cancellation, "
                      "Close, reader error/EOF, peer cancel, duplicate id or failing write" + rule_extra)
+
+
+# --------------------------------------------------------------------------
+# TLC-generated scenarios (spec/ConnGen.tla, simulation mode)
+
+import re, glob, shutil, subprocess
+
+
+def tlc_scenarios(cfg, num, depth, seed, prefix, timeout=600):
+    """Simulate ConnGen under cfg and convert every behaviour's environment-action history into a
+    gated scenario for both sides. Returns (scenarios, tlc_result)."""
+    wd = vlib.scratch("tlc-")
+    sim = os.path.join(wd, "sim")
+    os.makedirs(sim)
+    res = vlib.run_tlc("ConnGen", cfg, workdir=wd, workers=1, timeout=timeout, heap_gb=4,
+                       simulate="file=%s/b,num=%d" % (sim, num), depth=depth, seed=seed)
+    if res.error or res.violation:
+        raise vlib.MachineryError("ConnGen simulation failed: %s %s\n%s" % (res.error, res.violation, res.stdout[-1500:]))
+    m = re.search(r"The number of states generated: (\d+)", res.stdout)
+    if m:
+        res.generated = res.distinct = int(m.group(1))
+    scen, seen = [], set()
+    for i, f in enumerate(sorted(glob.glob(os.path.join(sim, "b_*")))):
+        txt = open(f).read()
+        j = txt.rfind("/\\ hist = <<")
+        if j < 0:
+            continue
+        k = txt.find(">>", j)
+        hist = re.findall(r'"([^"]*)"', txt[j:k])
+        steps = []
+        for h in hist:
+            parts = h.split("|")
+            steps.append(parts)
+            if parts[0] == "wret" and parts[-1] == "stall":
+                steps.append(["sleep", "6"])
+        key = json.dumps(steps)
+        if not steps or key in seen:
+            continue
+        seen.add(key)
+        for side in ("client", "server"):
+            scen.append({"id": "%s%d.%s" % (prefix, i, side), "side": side, "gated": True, "steps": steps})
+    return scen, res
